@@ -87,7 +87,7 @@ def infer_shapes(spec) -> Dict[str, Tuple[int, ...]]:
             assert a[0][-1] == 1
             sh[n['id']] = a[0][:-1]
         elif op == 'snmodule':
-            sh[n['id']] = a[0]
+            sh[n['id']] = (n['cout'],) + tuple(a[0][1:])
         else:
             raise ValueError(op)
         assert all(v >= 1 for v in sh[n['id']]), (n, sh[n['id']])
